@@ -333,6 +333,18 @@ structure Pool where
   fitsInt : Int → Bool
   fitsFloat : String → Bool
 
+/-- an immediate operand is a 16-bit constant-pool INDEX: the largest one is `u16::MAX` = 65535 -/
+def immIndexFits (index : Nat) : Bool := decide (index ≤ 65535)
+
+/-- the pool as `gather_constants` numbers it: `try_get_id(..).is_some_and(|index| index <= u16::MAX)` -/
+def poolOfIndex (idxInt : Int → Option Nat) (idxFloat : String → Option Nat) : Pool where
+  fitsInt := fun n => match idxInt n with
+    | some i => immIndexFits i
+    | none => false
+  fitsFloat := fun f => match idxFloat f with
+    | some i => immIndexFits i
+    | none => false
+
 def fits (pool : Pool) : Instr → Bool
   | .pushInt imm => pool.fitsInt imm
   | .pushFloat imm => pool.fitsFloat imm
